@@ -51,7 +51,7 @@ class DocCheck(core.Check):
                        focus=focus, size=rnd.randint(2, 9),
                        depth=rnd.choice([3, 5, 5, 7] if tier == 'quick' else [3, 5, 7, 9, 12]),
                        gls=rnd.random() < .3, route=rnd.choice(['doc', 'doc', 'doc', 'defs', 'ltinput']),
-                       ml=rnd.random() < .15, seqs=rnd.random() < .15,
+                       ml=rnd.random() < .15, seqs=rnd.random() < .15, repl=rnd.random() < .15,
                        dcls=rnd.choice(['', '', '', 'article', 'scrartcl', 'book']),
                        endp=rnd.choice([0, 1, 2, 3]), pack=pack)
 
@@ -100,6 +100,21 @@ class DocCheck(core.Check):
             t, p = r
         p = [q + shift for q in p]
         a = align.align(d, t, p, case['lang'])
+        if case.get('repl') and not ml:
+            # the same document with a phrase-replacement list: the result must be the replacement (reference
+            # implementation of C13) applied to the result without it: copied text keeps its exact offsets
+            from .c13 import ref_replace
+            rules = ['ybodyb & \n', 'ybodyc & ybodyclonger yx\n', 'ybodyd & yd\n', '# comment\n', 'ybodya ybodya & Z\n']
+            (t2, p2), err2 = tex.run(src, repl=rules, **opts)
+            rt, rp, _ = ref_replace(t, [q - shift for q in p], rules)
+            if (t2, list(p2)) != (rt, rp) or err2 != err:
+                i = next((i for i in range(min(len(t2), len(rt))) if t2[i] != rt[i] or p2[i] != rp[i]),
+                         min(len(t2), len(rt)))
+                prob = ('repl-option', dict(first_difference=i, got=[t2[max(0, i - 20):i + 20], list(p2[max(0, i - 5):i + 5])],
+                                            want=[rt[max(0, i - 20):i + 20], rp[max(0, i - 5):i + 5]],
+                                            lengths=[len(t2), len(p2), len(rt)]))
+                a['c02'].insert(0, prob)
+                a['c03'].insert(0, prob)
         return d, t, p, err, a
 
     def judge(self, case):
@@ -109,10 +124,12 @@ class DocCheck(core.Check):
         cnt['route_' + case.get('route', 'doc')] = 1
         if case.get('ml'):
             cnt['ml_mode_documents'] = 1
+        if case.get('repl'):
+            cnt['repl_option_documents'] = 1
         cnt['aligned_documents' if a['aligned'] else 'unaligned_documents'] = 1
         return self.verdict(case, d, t, p, err, a, cnt)
 
     def quotas(self, tier):
         q = {'kind_' + k: 20 for k in gdocs.ALL_KINDS}
-        q.update({'route_doc': 500, 'route_defs': 200, 'route_ltinput': 200, 'ml_mode_documents': 200})
+        q.update({'route_doc': 500, 'route_defs': 200, 'route_ltinput': 200, 'ml_mode_documents': 200, 'repl_option_documents': 200})
         return q
